@@ -20,7 +20,8 @@ KNOWN_POSITIONAL = "C10/positional-arguments-unsupported"
 
 
 def canon(obj):
-  enc = l2.Encoder(common.Interner(), canonical=True)
+  """callables, arguments, tags and sharing; dict insertion order and __arguments__ order ignored"""
+  enc = l2.Encoder(common.Interner(), canonical=True, sort_dicts=True)
   return enc.ref(obj) + "|" + enc.heap()
 
 
@@ -55,17 +56,16 @@ def gen_pair(rng):
       new = b
     kinds.append(kind)
   if r < 0.25:
-    # pairs sharing objects by identity
+    # pairs sharing objects by identity: an object of old also occurs in new (in a NEW container, so
+    # that no object of old comes to contain itself once old is turned into new)
     shared = [x for x in c02.reachable(old) if isinstance(x, (list, dict, config_lib.Buildable)) and x is not old]
-    holders = [x for x in c02.reachable(new) if isinstance(x, (list, dict))]
-    if shared and holders:
-      h = rng.choice(holders)
+    if shared and isinstance(new, config_lib.Buildable):
       s = rng.choice(shared)
-      if isinstance(h, list):
-        h.append(s)
-      else:
-        h["shared_with_old"] = s
-      kinds.append("shares-identity")
+      names = [p[0] for p in l2.sig_params(new.__fn_or_cls__) if p[1] in ("PosOrKw", "KwOnly")]
+      free = [n for n in names if n not in new.__arguments__]
+      if free:
+        setattr(new, rng.choice(free), [s])
+        kinds.append("shares-identity")
   return old, new, "+".join(kinds) or "deepcopy"
 
 
